@@ -7,6 +7,7 @@ properties); then confirms on the wire, by running the real code, that each
 class encodes with the specification's ids and that the reference-encoded
 frame of each specification method decodes to the class of that name."""
 import inspect
+import random
 import re
 import struct
 
@@ -34,7 +35,8 @@ def shards(tier, seed):
     return common.with_configs(
         [{'name': 'walk', 'what': 'walk'},
          {'name': 'wire', 'what': 'wire',
-          'n': 5 if tier == 'quick' else 100}], common.ALL_CONFIGS, take=2)
+          'n': 5 if tier == 'quick' else 100}],
+        common.ALL_CONFIGS, take=2)
 
 
 _WHEN = ''
@@ -107,6 +109,40 @@ def _use_everything(rec, commands):
                     call(repr, u.value[2])
                 common.lib_unmarshal(m.value[:-2] + b'\xce')
                 n += 3
+    # decodes that fail at the k-th argument (payload cut inside the
+    # arguments, envelope consistent), for every class with arguments
+    import struct
+    for idx, sp in sorted(refspec.METHODS.items()):
+        if not sp.args:
+            continue
+        vals = gf.assignment(random.Random(idx), sp)
+        for a, t, _ in sp.args:
+            if t == 'table':
+                vals[a] = {'k': 'v'}
+        try:
+            wire_ = refcodec.enc_method(idx, vals, 2)
+        except refcodec.RefError:
+            continue
+        payload = wire_[7:-1]
+        for cut in sorted(set([4, 5, 6, len(payload) // 2,
+                               len(payload) - 1, len(payload) - 2,
+                               len(payload) - 5])):
+            if 4 <= cut < len(payload):
+                p = payload[:cut]
+                common.lib_unmarshal(struct.pack('>BHI', 1, 2, len(p)) + p +
+                                     b'\xce')
+                n += 1
+    # client code that subclasses the generated classes
+    made = []
+    for idx, cls in sorted(commands.INDEX_MAPPING.items()):
+        try:
+            made.append(type('Client' + cls.__name__, (cls,),
+                             {'__slots__': ['created_at']}))
+            made.append(type('Quiet' + cls.__name__, (cls,), {}))
+        except Exception:
+            pass
+    rec._keep = made
+    rec.count('client_subclasses_defined', len(made))
     P = commands.Basic.Properties
     for fn in (repr, str, list, dict, len, copy.deepcopy):
         call(fn, P(content_type='x', headers={'a': [1]}))
